@@ -2,9 +2,9 @@
 1. TLC model-checks OSSPS.tla (MC_OSSPS): the step law in fixed point driven by the implementation-shaped object
    (precomputed denominator that the first sub-iteration of a run modifies, absolute sub-iteration counter) for every
    configuration of a small family and EVERY history of reference run / crash / resume from any saved image / set_up and
-   run again: bounds, denominator = definition, schedule, resume = uninterrupted, ascent direction, fixed point.  Four
+   run again: bounds, denominator = definition, schedule, resume = uninterrupted, ascent direction, fixed point.  Five
    defective variants of the object (stale denominator after set_up, relaxation index / subset counted from the start of
-   the run, missing penalty term) must each be refuted by TLC.
+   the run, missing penalty term, voxels of zero sensitivity zeroed again when a run is resumed) must each be refuted by TLC.
 2. The driver runs the real OSSPSReconstruction (real projection-data objective function through the explicit-matrix
    seam, real QuadraticPrior, real image files) and records: one sub-iteration from EXACT instances; free-running
    reconstructions of 3 full iterations with resumption from the image saved after every sub-iteration, the same object
@@ -16,7 +16,7 @@
 import os, json, time
 from . import lib
 
-VARIANTS = ["stale_den", "relative_index", "relative_subset", "no_prior_term"]
+VARIANTS = ["stale_den", "relative_index", "relative_subset", "no_prior_term", "refill_on_resume"]
 ACTIONS = ["SetUpFresh", "SubIter", "Crash", "Resume", "Again"]
 RUN_KINDS = ["single", "fresh", "resume", "again", "history", "reuse"]
 
@@ -44,7 +44,7 @@ def run(ctx):
         if r.coverage.get(act, (0, 0))[0] == 0:
             raise lib.ModelFailure("MC_OSSPS: action %s never taken" % act)
     import concurrent.futures as cf
-    with cf.ThreadPoolExecutor(4) as ex:
+    with cf.ThreadPoolExecutor(5) as ex:
         refuted = list(ex.map(lambda v: lib.tlc("MC_OSSPS", cfg="MC_OSSPS_" + v, workers=1, timeout=600, heap="2g", tag="MC_OSSPS_" + v), VARIANTS))
     for v, rv in zip(VARIANTS, refuted):
         if not rv.violation:
@@ -83,8 +83,10 @@ def run(ctx):
         chunks += lib.split_trace(t, os.path.join(ctx.work, "chunks"), maxlines=1500 if q else 4000, boundary="System")
     res = lib.validate_parallel("Trace_OSSPS", [c[0] for c in chunks], jobs=W, timeout=1500, heap="3g")
     ctx.notes.append("wall: model checks %.0fs, build %.0fs, recording %.0fs, trace validation %.0fs" % (t1 - t0, t2 - t1, t3 - t2, time.time() - t3))
-    seen = {"kinds": set(), "N": set(), "prior": set(), "parse": set(), "filter": set(), "clamp": set(), "additive": set(), "ubound": set(), "exact": set()}
+    seen = {"kinds": set(), "N": set(), "prior": set(), "parse": set(), "filter": set(), "clamp": set(), "additive": set(), "ubound": set(), "exact": set(), "holeresume": set()}
     nruns = nsteps = nresume = 0
+    nknown = [0]
+    hole = False
     for (p, ok, r, at) in res:
         recs = lib.read_ndjson(p)
         ctx.transitions += r.generated
@@ -95,7 +97,9 @@ def run(ctx):
         cfg, run_ = None, None
         for rec in recs:
             e = rec["e"]
-            if e == "Config":
+            if e == "System":
+                hole = any(len(col) == 0 for col in rec["cols"])       # a voxel no bin sees (zero sensitivity)
+            elif e == "Config":
                 cfg = rec
             elif e == "Run" and cfg is not None:
                 run_ = rec
@@ -109,6 +113,8 @@ def run(ctx):
                 seen["additive"].add(cfg["additive"])
                 seen["ubound"].add(cfg["uInf"])
                 seen["exact"].add(cfg["exact"])
+                if hole and cfg["prior"] and rec["start"] > 1:
+                    seen["holeresume"].add((cfg["exact"], rec["kind"]))
                 if nruns % 173 == 1:
                     ctx.sample({"config": {k: cfg[k] for k in ("exact", "N", "startSubset", "aN", "aK", "gN", "gK", "uInf", "uN", "uK", "prior", "kappa", "dep", "beta", "filter", "filterInt", "viaParse", "additive")},
                                 "run": {k: rec[k] for k in ("kind", "from", "start", "last", "twice")}})
@@ -118,9 +124,16 @@ def run(ctx):
                 lo = any(a == 0 and b != 0 for a, b in zip(rec["b1"], rec["b0"]))
                 hi = (not cfg["uInf"]) and any(a == cfg["uN"] * 2 ** (rec["kl"] - cfg["uK"]) for a in rec["lam1"])
                 seen["clamp"].add((lo, hi))
-                ctx.nontrivial((cfg["exact"], cfg["N"], _prior_kind(cfg), cfg["uInf"], cfg["viaParse"], cfg["additive"], run_["kind"],
+                ctx.nontrivial((cfg["exact"], cfg["N"], _prior_kind(cfg), cfg["uInf"], cfg["viaParse"], cfg["additive"], run_["kind"], hole,
                                 rec["k"] // cfg["N"], rec["sub"], lo, hi, cfg["filter"] if cfg["filterInt"] > 0 or cfg["post"] else "none"))
-        bad = [ln for (ln, cls) in lib.unexplained(r)]
+        known_ids = {k["id"] for k in ctx.known}
+        bad = []
+        for (ln, cls) in lib.unexplained(r):
+            if cls in known_ids:      # classified by the specification (Classify in Trace_OSSPS.tla) as a known finding
+                ctx.known_hits[cls] = [k for k in ctx.known if k["id"] == cls][0]["what"]
+                nknown[0] += 1
+            else:
+                bad.append(ln)
         if bad:
             # replay file: the System group(s) holding unexplained lines (the reference run of a group is needed by the later runs)
             out, badrecs = [], []
@@ -146,11 +159,14 @@ def run(ctx):
         missing = [k for k in RUN_KINDS if k not in seen["kinds"]]
         if (missing or not {1, 2, 3, 4} <= seen["N"] or len(seen["prior"]) < 5 or len(seen["parse"]) < 2 or len(seen["filter"]) < 3
                 or len(seen["additive"]) < 2 or len(seen["ubound"]) < 2 or len(seen["exact"]) < 2
-                or not any(c[0] for c in seen["clamp"]) or not any(c[1] for c in seen["clamp"])):
+                or not any(c[0] for c in seen["clamp"]) or not any(c[1] for c in seen["clamp"])
+                # prior + voxel of zero sensitivity + run started at a sub-iteration > 1: free (resume) and exact (single)
+                or (False, "resume") not in seen["holeresume"] or (True, "single") not in seen["holeresume"]):
             raise lib.ModelFailure("recorded traces do not cover the option space: %s missing=%s" % ({k: sorted(map(str, v)) for k, v in seen.items()}, missing))
     ctx.extra["runs"] = nruns
     ctx.extra["sub_iterations"] = nsteps
     ctx.extra["resumed_runs"] = nresume
+    ctx.extra["lines_classified_as_known_finding"] = nknown[0]
     ctx.exhaustive = False
     ctx.assumptions = [
         "toy geometry: user-defined 8-detector 3-ring scanner (4 views, 108 bins), 2x2x3 image, explicit integer system matrix; num_subsets 1..4 (3 with subset sensitivities)",
@@ -162,4 +178,4 @@ def run(ctx):
     ]
     return ctx.finish(rule="one evaluation = one recorded OSSPS sub-iteration (update_estimate + end_of_iteration_processing of the real class) whose new image TLC compared with the law; "
                       "traces = set_up + reconstruct runs validated (single exact steps, reference runs, resumed runs from every saved image, repeated and re-used objects); "
-                      "distinct_nontrivial = distinct (exact/free, num_subsets, prior kind, bounded?, parsed?, additive?, kind of run, relaxation index, subset, lower clamp met, upper clamp met, filter) combinations")
+                      "distinct_nontrivial = distinct (exact/free, num_subsets, prior kind, bounded?, parsed?, additive?, kind of run, zero-sensitivity voxel?, relaxation index, subset, lower clamp met, upper clamp met, filter) combinations")
